@@ -2,6 +2,7 @@ import RbV.Basic.Codec
 import RbV.Ref.NW
 import RbV.Ref.PoaCheck
 import RbV.Ref.PoaAccept
+import RbV.Model.Poa
 /-! Driver for property C16 (partial-order alignment).
 
 `c16 <gap>:<xp>:<xs>:<yp>:<ys> <alphabet> <table> <reference> <step>/… => g:<labels>:<edges> c:<cons> | [b:<sc>] s:<sc> o:<ops> [g:… c:…] | …`
@@ -17,7 +18,11 @@ Clauses decided here, all with the proved functions of `RbV/Ref`:
 * identity clause — only for histories that consist of global re-additions of the reference under a scheme
   whose unique optimum is the identity alignment (one match score M > 0, every mismatch < M, gap < 0):
   labels and consensus stay equal to the reference.
-Nothing is asserted about scores or operations of `semiglobal`/`local`/`custom`/narrow bands. -/
+Nothing is asserted about scores or operations of `semiglobal`/`local`/`custom`/narrow bands.
+
+The mirror model `RbV/Model/Poa.lean` is evaluated alongside: `global` DP + traceback on the current graph,
+`add_alignment` on the observed operations (every mode), `consensus` on every dump, and `chainScore`
+(proved equal to the optimum) on the linear graph.  Differences are tags `drift-*`, never violations. -/
 namespace RbV.Drv.C16
 open RbV.Codec RbV.NW RbV.Poa
 
@@ -131,14 +136,16 @@ def St.tag (st : St) (t : String) : St := if st.tags.contains t then st else { s
 
 /-- consensus clause on graph `d` -/
 def checkCons (st : St) (d : Dump) (c : String) (at_ : String) : St :=
+  let mc := match Model.consensus d.labels d.wes with | none => "PANIC" | some w => toHex w
+  let st := if mc ≠ c then st.tag "drift-consensus" else st
   if c = "PANIC" then
-    if d.wes.isEmpty then { st with soft := st.soft ++ ["consensus-panic-on-graph-without-edges@" ++ at_] }
-    else st.fail ("consensus-panic@" ++ at_)
+    if d.wes.isEmpty then { st with soft := st.soft ++ ["consensus-panic-on-graph-without-edges step=" ++ at_] }
+    else st.fail ("consensus-panic step=" ++ at_)
   else match parseHex c with
     | none => { st with bad := some "consensus" }
     | some w =>
-      if w.isEmpty then st.fail ("consensus-empty@" ++ at_)
-      else if !spelledB d.labels (plain d.wes) w then st.fail ("consensus-not-a-path@" ++ at_)
+      if w.isEmpty then st.fail ("consensus-empty step=" ++ at_)
+      else if !spelledB d.labels (plain d.wes) w then st.fail ("consensus-not-a-path step=" ++ at_)
       else st
 
 def fullBand (st : Step) (m : Nat) : Bool := st.bw ≥ m && st.bw ≥ st.query.length
@@ -154,7 +161,7 @@ def stepCheck (sc : Sc) (clipsDefault uniq : Bool) (ref : List Nat) (st : St) (i
   | some "PANIC" =>
     let promised := sp.mode = "g" || (sp.mode = "b" && fullBand sp m && clipsDefault)
     let st := { st with stopped := true }
-    if promised then st.fail ("panic-in-alignment@" ++ at_) else st.tag "panic-unpromised-mode"
+    if promised then st.fail ("panic-in-alignment step=" ++ at_) else st.tag "panic-unpromised-mode"
   | some sstr =>
   match parseInt sstr, g.o.bind (parseList parseOp) with
   | some s, some ops =>
@@ -164,18 +171,19 @@ def stepCheck (sc : Sc) (clipsDefault uniq : Bool) (ref : List Nat) (st : St) (i
         let x := st.cur.labels
         let nw := nwFast sc x sp.query
         let st := st.tag "lin-global"
+        let st := if Model.chainScore sc x sp.query ≠ s then st.tag "drift-chain-score" else st
         let st := if x.length ≥ 2 && sp.query.length ≥ 2 && hasGapOrClip ops then { st with nt := true } else st
         let st := if hasGapOrClip ops then st.tag "lin-gapped" else st
         let st :=
-          if s ≠ nw then st.fail ("score@" ++ at_ ++ ":optimum=" ++ toString nw ++ ":reported=" ++ toString s)
+          if s ≠ nw then st.fail ("score step=" ++ at_ ++ " optimum=" ++ toString nw ++ " reported=" ++ toString s)
           else if acceptGlobal sc x sp.query ops s then st
           else match toMoves 0 ops with
-            | none => st.fail ("operations-not-a-global-alignment@" ++ at_)
-            | some mv => st.fail ("operations-score@" ++ at_ ++ ":recomputed=" ++
-                (match score sc x sp.query mv with | some v => toString v | none => "invalid") ++ ":reported=" ++ toString s)
+            | none => st.fail ("operations-not-a-global-alignment step=" ++ at_)
+            | some mv => st.fail ("operations-score step=" ++ at_ ++ " recomputed=" ++
+                (match score sc x sp.query mv with | some v => toString v | none => "invalid") ++ " reported=" ++ toString s)
         match g.b with
         | none => st
-        | some "PANIC" => if fullBand sp m && clipsDefault then st.fail ("panic-in-banded@" ++ at_) else st
+        | some "PANIC" => if fullBand sp m && clipsDefault then st.fail ("panic-in-banded step=" ++ at_) else st
         | some bs =>
           match parseInt bs with
           | none => { st with bad := some "banded-score" }
@@ -183,13 +191,19 @@ def stepCheck (sc : Sc) (clipsDefault uniq : Bool) (ref : List Nat) (st : St) (i
             if fullBand sp m then
               if clipsDefault then
                 let st := st.tag "lin-banded-full"
-                if b ≠ s then st.fail ("banded-score@" ++ at_ ++ ":banded=" ++ toString b ++ ":global=" ++ toString s) else st
+                if b ≠ s then st.fail ("banded-score step=" ++ at_ ++ " banded=" ++ toString b ++ " global=" ++ toString s) else st
               else if b ≠ s then st.tag "banded-with-clip-penalties-differs" else st
             else st
       else if linear && sp.mode = "b" && fullBand sp m && clipsDefault then
         let nw := nwFast sc st.cur.labels sp.query
         let st := st.tag "lin-banded-full"
-        if s ≠ nw then st.fail ("banded-score@" ++ at_ ++ ":optimum=" ++ toString nw ++ ":reported=" ++ toString s) else st
+        if s ≠ nw then st.fail ("banded-score step=" ++ at_ ++ " optimum=" ++ toString nw ++ " reported=" ++ toString s) else st
+      else st
+    let st :=
+      if sp.mode = "g" then
+        let (ms, mops) := Model.globalAlign sc st.cur.labels st.cur.wes sp.query
+        let st := if ms ≠ s then st.tag "drift-global-score" else st
+        if mops ≠ ops then st.tag "drift-global-ops" else st
       else st
     let st := if hasClip ops then st.tag "clip-ops" else st
     let st := if sp.mode = "b" && !fullBand sp m then st.tag "narrow-band" else st
@@ -200,7 +214,7 @@ def stepCheck (sc : Sc) (clipsDefault uniq : Bool) (ref : List Nat) (st : St) (i
     match g.g, g.c with
     | some "PANIC", _ =>
       let st := { st with stopped := true }
-      st.fail ("panic-in-add_to_graph@" ++ at_)
+      st.fail ("panic-in-add_to_graph step=" ++ at_)
     | some gs, some cs =>
       match parseDump gs with
       | none => { st with bad := some "graph" }
@@ -209,19 +223,21 @@ def stepCheck (sc : Sc) (clipsDefault uniq : Bool) (ref : List Nat) (st : St) (i
         let n := d.labels.length
         let es := plain d.wes
         let st := st.tag "add"
+        let mg := Model.addAlignment { labels := old.labels, es := old.wes } ops sp.query
+        let st := if mg.labels ≠ d.labels || mg.es ≠ d.wes then st.tag "drift-add" else st
         let st := if n > old.labels.length then { (st.tag "grow") with nt := true } else st
         let st := if !isChain d then st.tag "branched" else st
-        let st := if !wellFormedB n es then st.fail ("edge-endpoint-out-of-range@" ++ at_)
-          else if !isAcyclic n es then st.fail ("cycle@" ++ at_) else st
-        let st := if !extendsB old.labels old.wes d.labels d.wes then st.fail ("label-or-edge-lost@" ++ at_) else st
-        let st := if n > old.labels.length + sp.query.length then st.fail ("node-growth@" ++ at_) else st
+        let st := if !wellFormedB n es then st.fail ("edge-endpoint-out-of-range step=" ++ at_)
+          else if !isAcyclic n es then st.fail ("cycle step=" ++ at_) else st
+        let st := if !extendsB old.labels old.wes d.labels d.wes then st.fail ("label-or-edge-lost step=" ++ at_) else st
+        let st := if n > old.labels.length + sp.query.length then st.fail ("node-growth step=" ++ at_) else st
         let st := checkCons st d cs at_
         let ident := st.onlyIdentity && sp.mode = "g" && sp.query == ref
         let st := { st with onlyIdentity := ident, noAdds := false, cur := d }
         if ident && uniq then
           let st := st.tag "identity"
-          let st := if d.labels ≠ ref then st.fail ("identity-readdition-changed-nodes@" ++ at_) else st
-          if cs ≠ "PANIC" && parseHex cs ≠ some ref then st.fail ("identity-readdition-consensus@" ++ at_) else st
+          let st := if d.labels ≠ ref then st.fail ("identity-readdition-changed-nodes step=" ++ at_) else st
+          if cs ≠ "PANIC" && parseHex cs ≠ some ref then st.fail ("identity-readdition-consensus step=" ++ at_) else st
         else st
     | _, _ => { st with bad := some "no-graph-after-add" }
   | _, _ => { st with bad := some "score-or-ops" }
@@ -260,7 +276,7 @@ def verdict (toks : List String) (out : String) : String :=
             if gs.length < steps.length && !st.stopped then "bad-op fewer-groups-than-steps" else
             match st.fails ++ st.soft with
             | f :: _ =>
-              if f.startsWith "score@" then "diff " ++ f else "reject " ++ f
+              if f.startsWith "score " then "diff " ++ f else "reject " ++ f
             | [] => "ok" ++ (if st.nt then " nt" else "") ++ String.join (st.tags.map (" " ++ ·))
         | _, _ => "bad-op initial-graph"
     | _, _, _, _, _ => "bad-op parse"
